@@ -15,7 +15,7 @@ const Scenario scen_heap = { "heap", NOOPS_, 1, heap_gen_none, heap_exec_none, "
 #else
 
 enum { H_NEWNODE, H_NEWREF, H_NEWBOX, H_NEWCONT, H_LINK, H_UNLINK, H_SLOTSET, H_SLOTCLR,
-       H_TLSSET, H_TLSREM, H_DEL, H_BURST, H_STOP, H_START, H_CHAIN, H_BADFREE, H_COPY, H_REGHOLD, H_BADNEW, H_NOPS };
+       H_TLSSET, H_TLSREM, H_DEL, H_BURST, H_STOP, H_START, H_CHAIN, H_BADFREE, H_COPY, H_REGHOLD, H_BADNEW, H_EXITPROG, H_NOPS };
 static const OpInfo OPS[H_NOPS] = {
   [H_NEWNODE] = { "newnode", 2 },   /* slot cls */
   [H_NEWREF]  = { "newref", 3 },    /* slot target cls */
@@ -35,6 +35,8 @@ static const OpInfo OPS[H_NOPS] = {
   [H_BADFREE] = { "badfree", 2 },   /* kind x */
   [H_COPY]    = { "copy", 2 },      /* slot obj */
   [H_BADNEW]  = { "badnew", 1 },    /* kind: a constructor call that raises (the allocation is already registered) */
+  [H_EXITPROG] = { "exitprog", 3 }, /* mode n seed: a separate Cello program (the library's own main macro, no simulator underneath) that ends
+                                       by return / exit() in a callee / exit() inside try / an uncaught exception / after a worker thread */
   [H_REGHOLD] = { "reghold", 1 },   /* n: a fresh object referenced from a callee-saved register only while n allocations run */
 };
 
@@ -239,6 +241,15 @@ static void check_reachable_alive(const char* when) {
     if (!o->alive || !o->reach) continue;
     nreach++;
     char cls[128];
+    if (g_focus == 5) {
+      /* the C05 check: only what is owned through a Box (and the Boxes themselves) - finalised while still held */
+      int boxish = o->kind == HK_BOX || (o->owner >= 0 && O[o->owner].kind == HK_BOX);
+      if (boxish && (o->finalised || o->freed)) {
+        snprintf(cls, sizeof cls, "C05:box:finalised-while-still-held:%s", HKNAME[o->kind]);
+        HV("C05", cls, "object #%d (%s, owned through a Box or a Box itself) was finalised while the shadow graph still reaches it, %s", i, HKNAME[o->kind], when);
+      }
+      continue;
+    }
     if (o->finalised || o->freed || arena_state(hdr_of(o->ptr)) != BLK_LIVE) {
       dump_shadow();
       snprintf(cls, sizeof cls, "C01:reclaimed-while-reachable:%s:path=%s", HKNAME[o->kind], path_kind(i));
@@ -866,6 +877,50 @@ static void op_badnew(const Op* op) {
   stat_add("heap.failed_constructor", 1);
 }
 
+/* "... or at the latest at program exit": a real program, every way of ending it */
+#include <sys/wait.h>
+#include <fcntl.h>
+static void op_exitprog(const Op* op) {
+  char exe[512]; ssize_t l = readlink("/proc/self/exe", exe, sizeof exe - 16);
+  if (l <= 0) return;
+  exe[l] = 0; char* sl = strrchr(exe, '/'); if (!sl) return; strcpy(sl + 1, "exitprog");
+  if (access(exe, X_OK) != 0) return;                       /* configurations that do not build it */
+  int mode = (int)(((op->a[0] % 5) + 5) % 5), n = 5 + (int)(((op->a[1] % 120) + 120) % 120);
+  char am[16], an[16], as[32]; snprintf(am, sizeof am, "%d", mode); snprintf(an, sizeof an, "%d", n); snprintf(as, sizeof as, "%lld", (long long)op->a[2]);
+  int pp[2]; if (pipe(pp)) return;
+  pid_t pid = fork();
+  if (pid == 0) {
+    alarm(20);
+    int dn = open("/dev/null", O_WRONLY); if (dn >= 0) { dup2(dn, 2); dup2(dn, 1); }
+    /* the report channel is fd 3 of the program (the read end may be sitting on 3 here: move the write end out of the way first) */
+    int w = fcntl(pp[1], F_DUPFD, 10); close(pp[0]); close(pp[1]);
+    dup2(w, 3); close(w);
+    execl(exe, exe, am, an, as, (char*)NULL);
+    _exit(99);
+  }
+  close(pp[1]);
+  static char buf[1 << 16]; size_t got = 0; ssize_t r;
+  while (got < sizeof buf - 1 && (r = read(pp[0], buf + got, sizeof buf - 1 - got)) > 0) got += (size_t)r;
+  buf[got] = 0; close(pp[0]);
+  int st = 0; waitpid(pid, &st, 0);
+  static unsigned char made[4096], fin[4096]; memset(made, 0, sizeof made); memset(fin, 0, sizeof fin);
+  long nc = 0, nd = 0;
+  for (char* p = buf; *p; ) { char w = *p; long id = strtol(p + 1, NULL, 10); if (id > 0 && id < 4096) { if (w == 'c') { made[id]++; nc++; } else if (w == 'd') { fin[id]++; nd++; } } p = strchr(p, '\n'); if (!p) break; p++; }
+  static const int want_rc[5] = { 0, 0, 7, 1, 0 };
+  ev("exitprog mode=%d n=%d made=%ld", mode, n, nc);
+  if (!WIFEXITED(st)) HV("C06", "C06:program-exit:crashed", "a program ending by mode %d died with signal %d", mode, WIFSIGNALED(st) ? WTERMSIG(st) : -1);
+  if (WEXITSTATUS(st) == 99) return;
+  if (nc < n) HV("C06", "C06:harness:program-exit-report", "the program reported %ld constructions, at least %d expected", nc, n);
+  if (WEXITSTATUS(st) != want_rc[mode]) HV("C06", "C06:program-exit:status", "a program ending by mode %d exited with status %d, expected %d", mode, WEXITSTATUS(st), want_rc[mode]);
+  for (int id = 1; id < 4096; id++) {
+    if (made[id] && fin[id] == 0) { char c[96]; snprintf(c, sizeof c, "C06:program-exit:left-behind:mode%d", mode); HV("C06", c, "object %d of a program ending by mode %d (%ld objects) was never finalised", id, mode, nc); }
+    if (fin[id] > 1) { char c[96]; snprintf(c, sizeof c, "C06:program-exit:finalised-twice:mode%d", mode); HV("C06", c, "object %d of a program ending by mode %d was finalised %d times", id, mode, fin[id]); }
+  }
+  (void)nd;
+  stat_add("heap.program_exit_runs", 1);
+  { char k[40]; snprintf(k, sizeof k, "heap.program_exit_mode%d", mode); stat_add(k, 1); }
+}
+
 /* C19: deallocating operations applied to stack / static objects */
 static void op_badfree(const Op* op) {
   int kind = (int)(((op->a[0] % 12) + 12) % 12);
@@ -947,13 +1002,14 @@ static void heap_execute(const Plan* p) {
       case H_COPY: op_copy(op); break;
       case H_REGHOLD: op_reghold(op); break;
       case H_BADNEW: op_badnew(op); break;
+      case H_EXITPROG: op_exitprog(op); break;
       default: break;
     }
     if (op->fault == 1) { progress(i, prop, "burst"); do_burst(10); }
     sim_scrub_stack();
     /* each check evaluates its own property's oracle, so that a violation of one property never hides another's
      * (the exactly-once ledger of C06 lives in the destructor / free hooks and is always on) */
-    if (focus == 0 || focus == 1 || focus == 19) { progress(i, focus == 19 ? "C19" : "C01", OPS[op->code].name); check_reachable_alive("after the operation"); }
+    if (focus == 0 || focus == 1 || focus == 19 || focus == 5) { progress(i, focus == 19 ? "C19" : focus == 5 ? "C05" : "C01", OPS[op->code].name); check_reachable_alive("after the operation"); }
     if (focus == 0 || focus == 17) { progress(i, "C17", OPS[op->code].name); check_registry("after the operation"); }
     progress(i, prop, OPS[op->code].name);
     ev("n=%d live=%ld", g_nobj, arena_live_count());
@@ -1071,7 +1127,9 @@ static void heap_generate_random(Plan* p, Rng* r, int maxops) {
     else if (d < 93) plan_add(p, H_BURST, 0, 0, a, 0, 0, 0, 0, 0);
     else if (d < 95) { if (allow_stop) { plan_add(p, stopped ? H_START : H_STOP, 0, 0, 0, 0, 0, 0, 0, 0); stopped = !stopped; } else plan_add(p, H_BURST, 0, 0, a, 0, 0, 0, 0, 0); }
     else if (d < 97) plan_add(p, H_COPY, 0, fault ? fault : (rng_chance(r, 1, 2) ? 2 + (int)rng_below(r, 6) : 0), a, b, 0, 0, 0, 0);
-    else if (d < 98) plan_add(p, (focus == 6 || focus == 5 || focus == 12) ? H_BADNEW : H_REGHOLD, 0, 0, a, 0, 0, 0, 0, 0);
+    else if (d < 98) {
+      if ((focus == 6 || focus == 0) && rng_chance(r, 1, 2)) plan_add(p, H_EXITPROG, 0, 0, a, b, c, 0, 0, 0);
+      else plan_add(p, (focus == 6 || focus == 5 || focus == 12) ? H_BADNEW : H_REGHOLD, 0, 0, a, 0, 0, 0, 0, 0); }
     else { int64_t n = rng_chance(r, 1, 4) ? 1000 + rng_below(r, 9000) : 5 + rng_below(r, 300); if (focus == 17 || maxops) n = 5 + rng_below(r, 200); plan_add(p, H_CHAIN, 0, 0, a, n, 0, 0, 0, 0); }
   }
 }
